@@ -31,6 +31,7 @@ from ..Models.Beam._beam import BeamStructure, _Beam, Isotropic
 # simu
 from ._simu import _Simu, SolverType
 from ._problem_type import ProblemType
+from .Solvers import AlgoType
 
 
 class Beam(_Simu):
@@ -500,6 +501,9 @@ class Beam(_Simu):
             iter = {}
 
         iter["displacement"] = self.displacement
+        if self.algo in AlgoType.Get_Hyperbolic_Types():
+            iter["speed"] = self._Get_v_n(self.problemType)
+            iter["accel"] = self._Get_a_n(self.problemType)
 
         return super().Save_Iter(iter)
 
@@ -509,7 +513,20 @@ class Beam(_Simu):
         if results is None:
             return
 
-        self._Set_solutions(self.problemType, results["displacement"])
+        u = results["displacement"]
+
+        if (
+            self.algo in AlgoType.Get_Hyperbolic_Types()
+            and "speed" in results
+            and "accel" in results
+        ):
+            v = results["speed"]
+            a = results["accel"]
+        else:
+            v = np.zeros_like(u)
+            a = np.zeros_like(u)
+
+        self._Set_solutions(self.problemType, u, v, a)
 
         return results
 
